@@ -223,6 +223,26 @@ def may_code_ids(mod) -> set:
                 fn_codes(v)
 
     fn_codes(mod)
+    # module-level functions that cannot be named from the module namespace (a later definition took the name, e.g. the
+    # implementations registered with functools.singledispatch under the name `_`): MAY-log
+    for v in list(vars(mod).values()):
+        reg = getattr(v, "registry", None)
+        if reg is not None and hasattr(v, "dispatch"):
+            for impl in reg.values():
+                if inspect.isfunction(impl) and getattr(mod, impl.__name__, None) is not impl:
+                    out.add(id(impl.__code__))
+    # nested functions that ARE resolvable on the unchanged design: a self-recursive closure is named by its own frame
+    must = set(getattr(P, "MUST_LOG_NESTED", []))
+    if must:
+        def walk(code):
+            for c in code.co_consts:
+                if hasattr(c, "co_code"):
+                    if c.co_qualname in must:
+                        out.discard(id(c))
+                    walk(c)
+        for v in list(vars(mod).values()):
+            if inspect.isfunction(v) and v.__module__ == mod.__name__:
+                walk(v.__code__)
     return out
 
 
@@ -394,6 +414,7 @@ def part_nesting(ctx: Ctx) -> Result:
     # a logger that fails on its i-th call, for every i: the failure is the logger's, every call is still handed to it
     # exactly once and in completion order, and the tracer forgets the call all the same
     nlogs = 0
+    may = may_code_ids(mods[0]) | may_code_ids(mods[1])   # (the module was reloaded above: its code objects are new)
     with trace_calls(c_probe := Collector(), 0, lambda code: code.co_filename in files):
         for expr in P.NESTING_CALLS:
             try:
